@@ -310,6 +310,9 @@ class StreamClient:
                 self.settings.protocols.raop.control_port,
             ),
         )
+        # Keep track of each endpoint as soon as it exists, so that close() frees it
+        # also when setting up the next one fails
+        self.control_client = cast(ControlClient, control_client)
         (_, timing_server) = await self.loop.create_datagram_endpoint(
             TimingServer,
             local_addr=(
@@ -317,8 +320,6 @@ class StreamClient:
                 self.settings.protocols.raop.timing_port,
             ),
         )
-
-        self.control_client = cast(ControlClient, control_client)
         self.timing_server = cast(TimingServer, timing_server)
 
         _LOGGER.debug(
